@@ -171,9 +171,10 @@ def valve_forced_open(spec, rw, re_, v, k):
     if not (sw == 1 and se in (0, 2)):
         return False
     qv = float(rw.link['flowrate'][v['name']].values[k])
-    return (v['type'] == 'FCV' and qv > v['setting'] + 1e-5) or \
-           (v['type'] == 'PRV' and float(rw.node['pressure'][v['end']].values[k]) > v['setting'] + 0.01) or \
-           (v['type'] == 'PSV' and float(rw.node['pressure'][v['start']].values[k]) < v['setting'] - 0.01)
+    cur = float(rw.link['setting'][v['name']].values[k])      # controls may have changed the setting since the start
+    return (v['type'] == 'FCV' and qv > cur + 1e-5) or \
+           (v['type'] == 'PRV' and float(rw.node['pressure'][v['end']].values[k]) > cur + 0.01) or \
+           (v['type'] == 'PSV' and float(rw.node['pressure'][v['start']].values[k]) < cur - 0.01)
 
 
 def run_engines(c, rng):
